@@ -11,7 +11,12 @@ def run_one(m):
     d = tempfile.mkdtemp(prefix='chess-ben-')
     try:
         subprocess.run(['rsync', '-a', '--exclude', 'target', '--exclude', '.git', REPO + '/', d + '/'], check=True)
-        for e in m['edits']:
+        if 'patch' in m:
+            r = subprocess.run(['patch', '-p1', '-s', '--no-backup-if-mismatch', '-i', m['patch']], cwd=d,
+                               stdout=subprocess.PIPE, stderr=subprocess.STDOUT, text=True)
+            if r.returncode != 0:
+                return m['id'], 'skipped', 'patch does not apply'
+        for e in m.get('edits', []):
             p = os.path.join(d, e['file'])
             s = open(p).read()
             if s.count(e['old']) < 1:
@@ -31,6 +36,10 @@ def run_one(m):
 
 def main():
     ms = json.load(open(os.path.join(HERE, 'selftest', 'benign.json')))
+    bd = os.path.join(HERE, 'selftest', 'benign')
+    for f in sorted(os.listdir(bd)) if os.path.isdir(bd) else []:
+        if f.endswith('.diff'):
+            ms.append(dict(id=f[:-5], patch=os.path.join(bd, f)))
     sel = sys.argv[1:]
     if sel:
         ms = [m for m in ms if m['id'] in sel]
